@@ -286,6 +286,9 @@ def gen_config_blocks():
               tlv_block([(1, 1, b"\x00\x08")], terminator=False), tlv_block([(1, 1, b"\x00\x08")], terminator=False) + b"\x00\x02\x00",
               tlv_block([(9, 3, b"A" * 128)], terminator=False), tlv_block([(9, 3, b"A" * 128)], terminator=False) + b"BCD\x00\x00\x00",
               tlv_block([(9, 3, b"A" * 127 + b"\x00")]), tlv_block([(36, 1, b"\x00\x01"), (36, 3, b"hash\x00")]),
+              tlv_block([(9, 3, b"A" * 144), (0x0101, 1, b"\x00\x01"), (37, 2, b"\x00\x00\x00\x07")]),
+              tlv_block([(9, 3, b"A" * 129), (2, 1, b"\x01\xbb")]), tlv_block([(9, 3, b"A" * 127), (2, 1, b"\x01\xbb")]),
+              tlv_block([(9, 1, b"A" * 128), (0x0101, 1, b"\x00\x01")]), tlv_block([(10, 3, b"B" * 128), (0x0101, 1, b"\x00\x01")]),
               tlv_block([(36, 2, b"\x00\x00\x00\x01")]), tlv_block([(36, 0, b"")]), tlv_block([(36, 2, b"\x00\x00\x00\x07"), (36, 1, b"\x00\x02")]),
               tlv_block([(0xfff0, 7, b""), (16, 2, b"\x00\x00\x00\x01"), (7, 3, bytes(range(40)))]),
               tlv_block([(1, 1, b"\x00\x08")])[:-3], b"\x00\x01\x00\x01\xff\xff" + b"x" * 10, b"\x01"]
